@@ -4,8 +4,8 @@ SPEC = {
     "lean_modules": ["PallasVerif.Props.C42"],
     "required_theorems": ["read_all", "tip_is_last", "binary_search_picks_containing_chunk", "binary_search_total",
                           "read_from_point_eq", "from_existing_point", "from_fuzzy_slot", "absent_exact_fails",
-                          "fuzzy_before_first_fails", "fuzzy_full_fails_at_witness"],
-    "streams": [{"name": "immdb", "quick": 150, "thorough": 2500, "timeout": 3000}],
+                          "fuzzy_before_first_fails", "fuzzy_full_fails_at_witness", "read_from_point_total", "getTip_ne_panic"],
+    "streams": [{"name": "immdb", "quick": 150, "thorough": 8000, "timeout": 3000}],
     "rule": "databases: verbatim copies of the test_data chunk files (quick: all three; thorough: every contiguous subset of >= 2 "
             "files) and re-chunked layouts of 2..36 real blocks (runs or strided samples of the 1777+ blocks of test_data) cut "
             "into 2..6 non-empty chunks with empty relative slots in the primary index; the newest chunk is always present and "
